@@ -12,7 +12,7 @@ fn stun_total<const N: usize>() {
     leak(r);
 }
 
-// @h name=vc07_stun_decode24 tier=thorough timeout=1200
+// @h name=vc07_stun_decode24 tier=experimental timeout=1200
 // @fn decode_stun_message, parse_xor_address
 // @bound 24 arbitrary bytes (header + one 4-byte attribute slot: every type / length field value)
 // @oracle terminates with Ok or Err: no panic, no overflow, attribute walk bounded by the input length
@@ -21,7 +21,7 @@ fn stun_total<const N: usize>() {
 #[kani::stub(std::backtrace::Backtrace::capture, bt_stub)]
 fn vc07_stun_decode24() { stun_total::<24>() }
 
-// @h name=vc07_stun_decode32 tier=thorough timeout=2400
+// @h name=vc07_stun_decode32 tier=experimental timeout=2400
 // @fn decode_stun_message, parse_xor_address
 // @bound 32 arbitrary bytes (room for an XOR address attribute or two short attributes)
 // @oracle as vc07_stun_decode24
@@ -29,3 +29,20 @@ fn vc07_stun_decode24() { stun_total::<24>() }
 #[kani::unwind(12)]
 #[kani::stub(std::backtrace::Backtrace::capture, bt_stub)]
 fn vc07_stun_decode32() { stun_total::<32>() }
+
+// @h name=vc07_stun_xor_addr_lengths tier=quick timeout=600
+// @fn parse_xor_address
+// @bound XOR address attribute values of every length 0..=20 (symbolic) with symbolic contents (any family byte) and transaction id
+// @oracle no panic for any length (a truncated IPv6 value of 16..19 bytes in particular); a result is produced only for complete IPv4 (8) / IPv6 (20) values (seeded change C07-C)
+#[kani::proof]
+#[kani::unwind(18)]
+#[kani::stub(std::backtrace::Backtrace::capture, bt_stub)]
+fn vc07_stun_xor_addr_lengths() {
+    let tx: [u8; 12] = kani::any();
+    let v: [u8; 20] = kani::any();
+    let n: usize = kani::any(); kani::assume(n <= 20);
+    let r = parse_xor_address(&v[..n], &tx);
+    if let Ok(Some(_)) = &r { assert!((v[1] == 1 && n >= 8) || (v[1] == 2 && n >= 20), "address fabricated from a truncated value"); }
+    kani::cover!(n == 17 && v[1] == 2, "truncated IPv6 value");
+    leak(r);
+}
